@@ -64,3 +64,23 @@ func VerifC03Conts(b *Bitmap) []VerifC03Cont {
 	}
 	return out
 }
+
+// VerifC03Table reports where the key table of a slice-backed bitmap lives: the addresses of the
+// backing arrays of its key slice and of its container-pointer slice (0 when empty or when the
+// bitmap is not slice-backed). Two bitmaps must never share them: a derived bitmap owns its table.
+func VerifC03Table(b *Bitmap) (keys, conts uintptr) {
+	if b == nil {
+		return 0, 0
+	}
+	sc, ok := b.Containers.(*sliceContainers)
+	if !ok {
+		return 0, 0
+	}
+	if cap(sc.keys) > 0 {
+		keys = uintptr(unsafe.Pointer(unsafe.SliceData(sc.keys)))
+	}
+	if cap(sc.containers) > 0 {
+		conts = uintptr(unsafe.Pointer(unsafe.SliceData(sc.containers)))
+	}
+	return keys, conts
+}
